@@ -1,3 +1,54 @@
-From WalModel Require Import Eval.
-Theorem tmp : True. Proof. exact I. Qed.
-Print Assumptions tmp.
+(** C16 — the execution paths agree; a second application of the passes changes nothing.
+    Statements only; proofs in proofs/ResolveProofs.v, proofs/PathProofs.v.
+    PARTIAL.  Proved: resolve is idempotent for every form and every scope stack (T-res-idem); the
+    command-line pipeline (passes, then Wal.eval running the passes again) coincides with the API
+    pipeline on every form whose processed version is a fixed point of expand and optimize (T-paths);
+    run_file/.wo is the sequence of Wal.eval calls.  That optimize preserves meaning where it is not a
+    syntactic fixed point is C08 (every rule is an evaluator equation).  Not proved: that expand is
+    the identity on an expanded form (it depends on the macro table in the state), the reader/printer
+    /pickle legs of the -c and .wo paths and process exit codes: those are decided by the
+    differential check, which runs the four real entry points as subprocesses.
+    Fuel is a device of the model: [resolve] runs [resolve_vars] with fuel 1 + nesting depth. *)
+From WalModel Require Import Api.
+From WalModel.proofs Require Import ResolveProofs PathProofs.
+
+(** T-res-idem *)
+Theorem resolve_twice_is_resolve_once : forall f sc e e' sc',
+  resolve_vars f sc e = RsOk (e', sc') -> resolve_vars f sc e' = RsOk (e', sc').
+Proof. exact resolve_vars_idem. Qed.
+Print Assumptions resolve_twice_is_resolve_once.
+
+Theorem resolve_idempotent_at_top : forall start e e',
+  resolve start e = RsOk e' -> val_depth e' = val_depth e -> resolve start e' = RsOk e'.
+Proof. exact resolve_idempotent. Qed.
+Print Assumptions resolve_idempotent_at_top.
+
+(** T-paths *)
+Theorem command_line_form_agrees_with_api : forall e st e1 st1 r,
+  ast_truthy e = true ->
+  ex0 e (Some global_id) st = Ok e1 st1 -> optimize_modelled e1 = true ->
+  resolve (global_names st1) (optimize e1) = RsOk r ->
+  ast_truthy r = true ->
+  ex0 r (Some global_id) st1 = Ok r st1 -> optimize_modelled r = true -> optimize r = r ->
+  val_depth r = val_depth (optimize e1) ->
+  cli_form e st = wal_eval e [] st.
+Proof. exact cli_form_agrees_with_api. Qed.
+Print Assumptions command_line_form_agrees_with_api.
+
+Theorem command_line_is_cli_form_per_form : forall forms, cli_run_forms forms = (mapM cli_form forms ;;; ret tt).
+Proof. exact cli_run_forms_is. Qed.
+Print Assumptions command_line_is_cli_form_per_form.
+
+Theorem falsy_form_is_skipped : forall e st, ast_truthy e = false -> wal_eval e [] st = Ok VNone st.
+Proof. exact falsy_form_skipped. Qed.
+Print Assumptions falsy_form_is_skipped.
+
+Theorem run_file_evaluates_forms_in_order : forall e rest,
+  api_run_file (e :: rest) = fold_left (fun acc x => acc ;;; wal_eval x []) rest (ret VNone ;;; wal_eval e []).
+Proof. exact run_file_is_sequence. Qed.
+Print Assumptions run_file_evaluates_forms_in_order.
+
+(** non-vacuity of T-paths *)
+Theorem paths_example : cli_form demo_form empty_state = wal_eval demo_form [] empty_state.
+Proof. exact cli_agrees_demo. Qed.
+Print Assumptions paths_example.
